@@ -463,7 +463,8 @@ def c15(tier, seed):
     c.required_counters = ["blocks_allocated", "blocks_freed_by_other_thread", "ults_default_stack", "ults_sized_stack",
                            "ults_user_stack", "stack_sizes_not_multiple_of_64", "ults_created_by_external_thread",
                            "ults_freed_by_other_kind_of_context", "stack_bytes_written_and_verified",
-                           "live_pairs_checked_disjoint", "concurrent_local_pool_destructions_verified"]
+                           "live_pairs_checked_disjoint", "concurrent_local_pool_destructions_verified",
+                           "tasklets_created_on_streams_freed_by_external_thread"]
     return c
 
 
